@@ -357,7 +357,16 @@ def table_provenance(P, rep, rule="K2"):
     n = 0
     for name, cls in LINE.items():
         F = P.func(cls + "::parse_entries")
-        R = lambda x, F=F: norm.render(P, x, nocast=True, subst=norm.naming_locals(P, F)).replace(" ", "").replace("this->", "")
+        # the coordinate a section override applies to: the local read from the "coordinate" entry (a role, whatever its name)
+        coord_keys = {}
+        for v in F.walk():
+            if v.get("k") == "VarDecl" and v.get("c"):
+                mc = astq.member_call(P, v["c"][0], "get")
+                if mc and mc[2] and any(y.get("k") == "StringLiteral" and y.get("v") == "coordinate" for y in F.walk(mc[2][0])):
+                    coord_keys[v["r"]] = "change_coord_number"
+        nl_ = norm.naming_locals(P, F)
+        sub_ = norm.Subst({k: v for k, v in nl_.vals.items() if k not in coord_keys}, nl_.lams, coord_keys)
+        R = lambda x, F=F, sub_=sub_: norm.render(P, x, nocast=True, subst=sub_).replace(" ", "").replace("this->", "")
         want = {"lengths": "value_length", "thickness": "value_thickness", "top_truncation": "value_top_truncation", "angles": "value_angle"}
         seen = set()
         for x in F.walk():
